@@ -206,7 +206,7 @@ func timed(c *Case) Outcome {
 }
 
 // worker: --exec=1 [--from=K] [--dump=K]. Prints "S <idx>" before every case it runs, "V <json>" for a
-// recovered panic, "R <json>" at the end. Counts of a worker that died are lost (the totals under-count).
+// recovered panic, "R <json>" at the end. Of a worker that died only the number of completed cases is kept.
 func worker(a hkit.Args) {
 	from, _ := strconv.Atoi(a.Extra["from"])
 	dump := -1
@@ -382,6 +382,7 @@ func supervise(a hkit.Args) {
 		// The worker died inside case `last`: a fatal runtime error, a panic on another
 		// goroutine, or the watchdog. Fetch the case, confirm it alone, go on behind it.
 		total.Restarts++
+		total.Executed += last - from // cases the dead worker completed (its other counters are lost)
 		c := dumpCase(a.Tier, shard, last)
 		f := confirm(a.Tier, c)
 		if f == nil {
